@@ -1061,6 +1061,41 @@ pub fn c07_cfg() -> GenCfg {
     GenCfg { formats: false, templates: false, any: true, max_depth: 3, max_defs: 2, inter_nullable: false, ..GenCfg::default() }
 }
 
+/// keyof T for the shapes whose TypeScript meaning is beyond doubt: the declared keys of an object type without index
+/// signature; of an intersection of such types, the keys of any member; of a union, the keys common to all members
+pub fn keyof_expectation(env: &Env, x: &D) -> Option<Vec<String>> {
+    let r = Ref::new(env, Mode::Open);
+    fn go(r: &Ref, d: &D, fuel: usize) -> Option<Vec<String>> {
+        if fuel == 0 {
+            return None;
+        }
+        match r.head(d) {
+            D::Object { index: None, props } => Some(props.iter().map(|p| p.key.clone()).collect()),
+            D::Inter(ms) => {
+                let mut out: Vec<String> = vec![];
+                for m in ms {
+                    for k in go(r, m, fuel - 1)? {
+                        if !out.contains(&k) {
+                            out.push(k);
+                        }
+                    }
+                }
+                Some(out)
+            }
+            D::Union(ms) => {
+                let mut sets: Vec<Vec<String>> = vec![];
+                for m in ms {
+                    sets.push(go(r, m, fuel - 1)?);
+                }
+                let first = sets.first()?.clone();
+                Some(first.into_iter().filter(|k| sets.iter().all(|s| s.contains(k))).collect())
+            }
+            _ => None,
+        }
+    }
+    go(&r, x, 5)
+}
+
 /// T[K] for the shapes whose TypeScript meaning is beyond doubt: an object declaring K; an intersection of such objects
 /// (intersection of the property types); a union of such objects (union of the property types, plus undefined where the
 /// property is optional)
@@ -1239,6 +1274,24 @@ impl Check for C07 {
             x = if as_union { D::Union(members) } else { D::Inter(members) };
             indexed_key = Some(k);
         }
+        // keyof over an intersection the frontend cannot merge syntactically (a key declared with different types, a named
+        // member), alone or next to another object type in a union
+        let mut keyof_targeted = false;
+        if op == "keyof" && s.chance(1, 2) {
+            let leaf = |s: &mut Src| match s.below(3) {
+                0 => D::Str,
+                1 => D::Num,
+                _ => D::StrLit(s.pick(&crate::den::STR_LITS).to_string()),
+            };
+            let mk = |s: &mut Src, keys: &[&str]| D::Object { props: keys.iter().map(|k| Prop { key: k.to_string(), ty: leaf(s), optional: s.chance(1, 4) }).collect(), index: None };
+            let na = s.range(1, 3);
+            let a = mk(s, &["id", "role", "name"][..na]);
+            let b = D::Object { props: vec![Prop { key: "role".into(), ty: D::StrLit("admin".into()), optional: false }, Prop { key: "perms".into(), ty: D::Array(Box::new(D::Str)), optional: false }], index: None };
+            let inter = D::Inter(vec![a, b]);
+            let nc = s.range(1, 3);
+            x = if s.chance(1, 2) { inter } else { D::Union(vec![inter, mk(s, &["id", "x", "role"][..nc])]) };
+            keyof_targeted = true;
+        }
         let y = match (op.as_str(), &x) {
             ("indexed", _) if indexed_key.is_some() => D::StrLit(indexed_key.clone().unwrap()),
             ("diff", D::Union(ms)) if s.chance(2, 3) => {
@@ -1278,12 +1331,15 @@ impl Check for C07 {
             }
         }
         if op == "keyof" {
+            for k in ["id", "role", "name", "perms", "x"] {
+                values.push(JsVal::str(k));
+            }
             for k in crate::den::KEYS {
                 values.push(JsVal::str(k));
             }
             values.push(JsVal::num("0"));
         }
-        let source_level = s.chance(1, 3) || indexed_key.is_some();
+        let source_level = s.chance(1, 3) || indexed_key.is_some() || keyof_targeted;
         serde_json::to_value(C07Case { env, x, y, op, values, source_level }).unwrap()
     }
     fn exec(&self, case: &Value, ctx: &mut Ctx) -> Outcome {
@@ -1421,8 +1477,8 @@ impl C07 {
                 }
                 ("exclude", vec![("X".into(), case.x.clone()), ("Y".into(), case.y.clone())])
             }
-            "keyof" => match r.head(&case.x) {
-                D::Object { index: None, props } if !props.is_empty() => ("keyof", vec![("X".into(), case.x.clone())]),
+            "keyof" => match keyof_expectation(&case.env, &case.x) {
+                Some(keys) if !keys.is_empty() => ("keyof", vec![("X".into(), case.x.clone())]),
                 _ => return,
             },
             "indexed" => match indexed_expectation(&case.env, &case.x, &case.y) {
@@ -1636,9 +1692,9 @@ impl C07 {
                     Some(rd) => r.member(rd, v),
                     None => continue,
                 },
-                "keyof" => match r.head(&case.x) {
-                    D::Object { props, .. } => Tri::from_bool(matches!(v, JsVal::Str(s) if props.iter().any(|p| p.key == *s))),
-                    _ => continue,
+                "keyof" => match keyof_expectation(&case.env, &case.x) {
+                    Some(keys) => Tri::from_bool(matches!(v, JsVal::Str(s) if keys.iter().any(|k| k == s))),
+                    None => continue,
                 },
                 _ => match indexed_expectation(&case.env, &case.x, &case.y) {
                     Some(exp) => r.member(&exp, v),
